@@ -1,5 +1,6 @@
 import BindgenModel.Driver.C03
 import BindgenModel.Driver.C02
+import BindgenModel.Driver.C06
 /-! `bgmodel`: one request per input line, one answer per output line. -/
 open BindgenModel
 
@@ -7,6 +8,7 @@ def dispatch (line : String) : String :=
   match (line.trimAscii.toString.splitOn " ").filter (· ≠ "") with
   | "bf" :: rest => Driver.C03.handle rest
   | "lay" :: rest => Driver.C02.handle rest
+  | "lt" :: rest => Driver.C06.handle rest
   | _ => "bad-op"
 
 partial def loop (h : IO.FS.Stream) (out : IO.FS.Stream) : IO Unit := do
